@@ -3,7 +3,7 @@ from mc import alphabets as al
 from mc import roundtrip as rt
 
 EXPRESSIBLE = {al.ABSENT, "str", "int", "float", "bool", "Optional[str]", "Optional[int]", "List[str]", "List[int]",
-               "Literal['x', 'y']", "Literal[1, 2]"}
+               "Literal['x', 'y']", "Literal[1, 2]", "Optional[Literal['x', 'y']]", "Optional[float]"}
 
 
 def expressible(case):
